@@ -25,7 +25,17 @@ def gen_case(ctx, k):
     nv = int(rs.randint(1, min(ncols, 5) + 1))
     scope = sorted(int(v) for v in rs.choice(ncols, nv, replace=False))
     mode = k % 4
-    if mode == 0 and nv >= 2:
+    if mode == 0 and nv >= 2 and k % 8 == 4:
+        # structure given at construction, parameters learned by fit() afterwards (the chain the XPC learner uses); trees rooted at
+        # the first position of the scope included
+        from harness import clt as CL
+        preds = CL.all_pred_vectors(nv) if nv <= 4 else [[int(t) for t in S.rand_clt(rs, list(range(nv))).tree]]
+        pred = preds[rs.randint(len(preds))]
+        if rs.rand() < 0.5:
+            pred = [p_ for p_ in preds if p_[0] == -1][rs.randint(len([p_ for p_ in preds if p_[0] == -1]))] if nv <= 4 else pred
+        root = CL.make_fitted_clt(rs, [int(v) for v in rs.permutation(scope)], pred)
+        ctx.count('clt-constructed-with-a-tree-then-fitted')
+    elif mode == 0 and nv >= 2:
         root = S.rand_clt(rs, [int(v) for v in rs.permutation(scope)])      # a Chow-Liu tree used alone
     else:
         kinds = FAMILIES[rs.randint(len(FAMILIES))] if mode != 1 else ('bern',)
